@@ -127,10 +127,16 @@ func runPipe(t []string) *Obs {
 		wg.Add(1)
 		go func(i int, ch chan handler.Message, d time.Duration) {
 			defer wg.Done()
+			first := true
 			for m := range ch {
 				if d > 0 {
 					time.Sleep(d)
 				}
+				if d < 0 && first {
+					// a negative delay: this consumer stalls once, on its first message, for that long
+					time.Sleep(-d)
+				}
+				first = false
 				mu.Lock()
 				o.seqs[i] = append(o.seqs[i], m)
 				mu.Unlock()
@@ -271,7 +277,7 @@ func init() {
 	opTable["pipe"] = runPipe
 	props["C09"] = &Prop{
 		Rule: "op pipe <T> <stream> chunks= caps= delays= procs=: the real file_handler.Handle + handler.HandleMessages + appcore.HandleMessagesUntilEOF on mixed streams (frames, corrupted frames, junk, " +
-			"stray 0xD3, truncated tails) read through chunked readers (chunk sizes 1..4096, pauses, last bytes with or without the end-of-file error, one or two transient end-of-file results between chunks, a bursty source with one after every chunk - hundreds in one call), 1..4 consumers with capacities 0/1/2/64, latencies 0..2 ms, nil entries, GOMAXPROCS 1/2/4/16; " +
+			"stray 0xD3, truncated tails) read through chunked readers (chunk sizes 1..4096, pauses, last bytes with or without the end-of-file error, one or two transient end-of-file results between chunks, a bursty source with one after every chunk - hundreds in one call), 1..4 consumers with capacities 0/1/2/64, latencies 0..2 ms and one consumer that stalls for 7 s (thorough 33 s) on its first message, nil entries, GOMAXPROCS 1/2/4/16; " +
 			"every non-nil consumer's (type, raw) sequence is compared with sequential framing of the same bytes by the real code and with the model's segmentation; goroutines are counted before/after; " +
 			"non-trivial = at least one non-nil consumer and a non-empty stream; distinct = distinct op line",
 		Gen: func(c *Ctx, emit func(class, op string)) {
@@ -318,6 +324,12 @@ func init() {
 					bs = append(bs, pipeStream(c)...)
 				}
 				emit("bursty-source-many-gaps", fmt.Sprintf("pipe %s %s chunks=%d caps=0,2 delays=0,0 procs=4 eof=bare gaps=9", defaultStart, hx(bs), 1+r.Intn(3)))
+			}
+			// one consumer stalls for seconds on its first message (a downstream reader that stops
+			// reading for a while): it still gets every message, and so do the others
+			for i := 0; i < c.N(1, 3); i++ {
+				bs := pipeStream(c)
+				emit("consumer-stalls-for-seconds", fmt.Sprintf("pipe %s %s chunks=64 caps=0,1 delays=-%d,0 procs=4 eof=bare", defaultStart, hx(bs), c.N(7000, 33000)))
 			}
 			emit("empty", fmt.Sprintf("pipe %s - chunks=1 caps=0,nil delays=0 procs=2", defaultStart))
 		},
